@@ -7,3 +7,48 @@ from .. import schemabind as B, schemagen as G  # noqa
 # G.UNIONS[(cls, field)] = [class names]                   candidate classes of a union field
 # G.FIELD_POOL[(cls, field)] = [abstract values] | f(ver)  values of a field when the kind's pool does not fit
 # G.HOOKS[cls] = lambda gen, val, ver, depth: val          consistency between fields of a generated value
+
+from kmip.core import enums, objects  # noqa: E402
+
+
+def _retag_masks(fields):
+    """ProtectionStorageMasks takes its tag as a constructor argument; the generic construction of a struct field
+    cannot pass the field's tag, so the payload builder re-creates the structure the way a caller would."""
+    def build(cls):
+        def b(kwargs, val):
+            for name, tag in fields.items():
+                o = kwargs.get(name)
+                if o is not None:
+                    kwargs[name] = objects.ProtectionStorageMasks(
+                        protection_storage_masks=o.protection_storage_masks, tag=tag)
+            return B.pyclass(cls)(**kwargs)
+        return b
+    return build
+
+
+B.BUILD["CreateKeyPairRequestPayload"] = _retag_masks({
+    "common_protection_storage_masks": enums.Tags.COMMON_PROTECTION_STORAGE_MASKS,
+    "private_protection_storage_masks": enums.Tags.PRIVATE_PROTECTION_STORAGE_MASKS,
+    "public_protection_storage_masks": enums.Tags.PUBLIC_PROTECTION_STORAGE_MASKS,
+})("CreateKeyPairRequestPayload")
+
+# Register: one managed object whose class is named by object_type
+MANAGED = {"Certificate": enums.ObjectType.CERTIFICATE, "SymmetricKey": enums.ObjectType.SYMMETRIC_KEY,
+           "PublicKey": enums.ObjectType.PUBLIC_KEY, "PrivateKey": enums.ObjectType.PRIVATE_KEY,
+           "SplitKey": enums.ObjectType.SPLIT_KEY, "Template": enums.ObjectType.TEMPLATE,
+           "SecretData": enums.ObjectType.SECRET_DATA, "OpaqueObject": enums.ObjectType.OPAQUE_DATA}
+G.UNIONS[("RegisterRequestPayload", "managed_object")] = sorted(MANAGED)
+
+
+def _register(g, v, ver, depth):
+    """object_type and managed_object agree: a fixed / drawn object type that has a class defined under the version
+    decides the class of the object, otherwise the object decides the type."""
+    by_type = {t.value: c for c, t in MANAGED.items() if G.class_live(c, ver)}
+    want = by_type.get(G.unnum(v["object_type"]))
+    if want is not None and v["managed_object"]["_k"] != want:
+        v["managed_object"] = g.obj(want, ver, depth + 1)
+    v["object_type"] = G.num(MANAGED[v["managed_object"]["_k"]].value)
+    return v
+
+
+G.HOOKS["RegisterRequestPayload"] = _register
